@@ -182,3 +182,21 @@ mod tests {
         assert_relative_eq!(result.to_matrix(), initial.to_matrix(), epsilon = 1e-8);
     }
 }
+
+/// Verification hook: the state of the private alignment problem after a given sequence of
+/// parameter updates, as (transform, residuals) - the same pair `points_to_mesh` assembles.
+#[cfg(feature = "verif")]
+pub fn verif_points_to_mesh_eval(
+    points: &[Point3],
+    mesh: &Mesh,
+    initial: &Iso3,
+    mode: DistMode,
+    xs: &[[f64; 6]],
+) -> (Iso3, Vec<f64>) {
+    let mut problem = PointsToMesh::new(points, mesh, initial, mode);
+    for x in xs {
+        problem.set_params(&T3Storage::new(x[0], x[1], x[2], x[3], x[4], x[5]));
+    }
+    let residuals = problem.residuals().unwrap().as_slice().to_vec();
+    (problem.current_transform(), residuals)
+}
